@@ -436,6 +436,8 @@ func (g *peGen) block(stmts []ast.Stmt, ind string) (string, error) {
 			return next("let phase : Nat := o.again s")
 		case l == "err" && r == "types.ErrExit":
 			return next("let err : Bool := true")
+		case l == "err" && r == "nil":
+			return next("let err : Bool := false")
 		case l == "s.directResponse" && (r == "false" || r == "true"):
 			return next("let s : σ := o.setDirectResponse s " + r)
 		case l == "s.retryState" && r == "nil":
@@ -455,6 +457,11 @@ func (g *peGen) block(stmts []ast.Stmt, ind string) (string, error) {
 			return next("let s : σ := o.resetStream s")
 		case strings.HasPrefix(k, "variable.SetString(s.context,types.VarProxyIsDirectResponse,"):
 			return next("let s : σ := o.markDirectResponse s")
+		case k == "s.detachRetriedRequest()":
+			// proxy6 (C03/C10 fix): the request given up for a retry is replaced by a fresh one whose setupRetry is false; in
+			// this model the mark is a parameter that processError consumes, so for it the call IS the consumption
+			// (what the fresh object looks like is regenerated for C03/C10: Gen.ProxyError.detachFresh)
+			return next("let s : σ := o.setSetupRetry s false")
 		}
 		return "", fmt.Errorf("processError: unsupported call %s", k)
 	case *ast.ReturnStmt:
